@@ -39,7 +39,6 @@ package benchfmt
 //@   ensures forall j int :: 0 <= j < len(baseName) ==> n[j] != '/'
 //@   ensures (exists k int :: gomaxprocsAt(n, k)) <==> (len(parts) > 0 && parts[len(parts)-1][0] == '-')
 //@   ensures len(parts) > 0 && parts[len(parts)-1][0] == '-' ==> gomaxprocsAt(n, off(parts[len(parts)-1])-off(n))
-//@   ensures forall p int :: 0 <= p < len(n) && n[p] == '/' ==> exists k int :: 0 <= k < len(parts) && off(parts[k]) == off(n)+p
 //@   ensures forall k int, j int :: 0 <= k < len(parts) && 1 <= j < len(parts[k]) ==> parts[k][j] != '/'
 //@   loop 1:
 //@     invariant 0 <= prev <= idx() <= len(buf)
@@ -47,6 +46,7 @@ package benchfmt
 //@     invariant len(nameParts) == 0 ==> prev == 0 && nameParts == nil
 //@     invariant len(nameParts) > 0 ==> fresh(nameParts) && prev < idx()
 //@     invariant len(nameParts) > 0 ==> off(nameParts[0]) == off(buf) && end(nameParts[len(nameParts)-1]) == off(buf)+prev
+//@     invariant len(nameParts) > 0 ==> cap(nameParts[0]) == cap(buf)
 //@     invariant forall m int :: 0 <= m < len(nameParts) ==> ref(nameParts[m]) == ref(buf) && off(buf) <= off(nameParts[m]) && end(nameParts[m]) <= off(buf)+prev && len(nameParts[m]) >= 0
 //@     invariant forall m int :: 0 <= m < len(nameParts)-1 ==> end(nameParts[m]) == off(nameParts[m+1])
 //@     invariant forall m int :: 1 <= m < len(nameParts) ==> len(nameParts[m]) >= 1 && nameParts[m][0] == '/'
@@ -55,7 +55,6 @@ package benchfmt
 //@     invariant len(nameParts) == 0 ==> idx() == 0 || buf[0] != '/'
 //@     invariant len(nameParts) > 0 ==> forall j int :: 0 <= j < len(nameParts[0]) ==> buf[j] != '/'
 //@     invariant forall m int, j int :: 1 <= m < len(nameParts) && 1 <= j < len(nameParts[m]) ==> nameParts[m][j] != '/'
-//@     invariant forall p int :: 0 <= p < prev && buf[p] == '/' ==> exists k int :: 1 <= k < len(nameParts) && off(nameParts[k]) == off(buf)+p
 //@     decreases len(buf) - idx()
 
 //@ pure func gomaxprocsAt(n []byte, k int) bool = 0 <= k && k+1 < len(n) && n[k] == '-' &&
